@@ -78,8 +78,18 @@ def compute(fact_path, jobs=None):
     }
 
 
+def engine_hash():
+    import hashlib
+    h = hashlib.sha256()
+    here = os.path.dirname(os.path.abspath(__file__))
+    for fn in ("lea.py", "lea_prims.py", "lea_rules.py", "lea_run.py", "lea_engine.py", "chars.py", "facts.py"):
+        with open(os.path.join(here, fn), "rb") as f:
+            h.update(f.read())
+    return h.hexdigest()[:12]
+
+
 def cached(cdir, tag="dev-none-stable"):
-    out = os.path.join(cdir, "lea-%s.json" % tag)
+    out = os.path.join(cdir, "lea-%s-%s.json" % (tag, engine_hash()))
     if os.path.exists(out):
         with open(out) as f:
             d = json.load(f)
